@@ -68,6 +68,10 @@ def generate(seed, tier):
             prog = ['block', stmts]
         else:
             prog = g.program(n_stmts=ro.randint(1, 6))
+            if ro.random() < 0.07:
+                # the smallest programs there are: one bare name or literal (2 operations: the program node and the leaf)
+                leaf = ro.choice([['name', ro.choice(sorted(env) or ['L'])], ['num', '7'], ['str', 'a'], ['bool', True], ['none'], ['name', 'L']])
+                prog = ['block', [leaf]]
             if arity and ro.random() < 0.7:
                 cross = True
                 # make sure lambdas defined by earlier evals are invoked by this one
